@@ -155,6 +155,7 @@ def run(ctx: Ctx):
         complaints_all.append(complaints)
     model_all = run_driver(EXE, lines_all)
     agree = 0
+    seen_sigs: dict = {}
     fam_total: dict = {}
     fw_lists_edited = set()
     for (name, case), impl, (st, ln), complaints in zip(cases, impl_all, bounds, complaints_all):
@@ -210,8 +211,14 @@ def run(ctx: Ctx):
             if name.startswith(("gen:", "obj:", "dev:")):
                 ctx.sample({"case": name, "family": fam, "lines": lines[:10], "answers": model[:10]}, cap=6)
             continue
-        # disagreement on a property observable: the model is proved to meet C07, so the trace is a failing input. Shrink it.
+        # disagreement on a property observable: the model is proved to meet C07, so the trace is a failing input. Shrink it
+        # (the first few of each signature only: a broken scan makes hundreds of traces disagree).
         i = _first_diff(impl, model)
+        sig0 = json.dumps(_sig(case, lines, i, complaints), sort_keys=True)
+        seen_sigs[sig0] = seen_sigs.get(sig0, 0) + 1
+        if seen_sigs[sig0] > 2 or sum(1 for v in seen_sigs.values() if v) > 12:
+            ctx.count("disagreeing traces not shrunk (same signature already reported)")
+            continue
 
         def fails(ops, case=case):
             c = dict({k: v for k, v in case.items() if not k.startswith("_")}, ops=ops)
